@@ -42,6 +42,13 @@ CONFIGS = [
     # traversal and queries on every shape and its obscured variants (C15)
     cfg("query_q", [["build"], ["elideset", "compressone", "observe"], ["observe"]], nreg=1, maxsize=12, maxt=2,
         shapes="ShUpTo(%s, 5) \\cup NodeSubjectNodes(%s, 9) \\cup Decorated(%s)" % (B3, B2, B2)),
+    # the decoder on every single structural mutation of valid encodings (C06)
+    cfg("decode_q", [["build"], ["elideset", "compressone", "decodewire", "codec"], ["decodewire", "codec"]], nreg=1, maxsize=12, maxt=1,
+        inv=("WellFormedInv", "C05RoundTrip"), props=("C06Prop",),
+        shapes="ShUpTo(%s, 5) \\cup NodeSubjectNodes(%s, 9) \\cup Decorated(%s) \\cup Nodes2(%s) \\cup Nodes3(%s) \\cup TkvShapes" % (B3, B2, B1, B2, B2)),
+    cfg("decode_t", [["build"], ["elideset", "compressone", "decodewire", "codec"], ["decodewire2", "codec"]], nreg=1, maxsize=12, maxt=1,
+        inv=("WellFormedInv", "C05RoundTrip"), props=("C06Prop",),
+        shapes="ShUpTo(%s, 4) \\cup {e \\in Sh(%s, 5) : IsNode(e)} \\cup Nodes2(%s) \\cup TkvShapes" % (B2, B2, B1)),
     # an assertion and its obscured twin
     cfg("twin_q", [["build"], ["navigate"], ["elideone", "compressone", "navigate"], ["assertions"]], maxsize=9, maxt=1,
         shapes="{e \\in ShUpTo(%s, 5) : IsNode(e)}" % B2),
